@@ -1,4 +1,7 @@
 """C02 — parsers are total (E1 panicpath + W-noerr)."""
+import re
+
+import common
 import e1_panicpath as e1
 
 EXPLANATION = (
@@ -13,7 +16,9 @@ EXPLANATION = (
     "length. A construct passes only if a syntactic range rule discharges it or tables/c02_allow.json lists it with a "
     "reason; table guards (dominating length comparison / dominating call) are re-checked on each run, so removing a "
     "length check re-opens the site. Decides: no reachable panic primitive outside the audited list. Does not decide: "
-    "termination, stack depth, panics inside std/dependencies beyond their documentation, wasm32 cfg variants."
+    "termination, stack depth, panics inside std/dependencies beyond their documentation, wasm32 cfg variants. The property's second clause "
+    "(whatever a parser returned serialises to well-formed CBOR) is decided by E2's W-len / W-one rules over every writer: in every abstract "
+    "presence state each definite container receives exactly the number of items it declares."
 )
 
 ASSUMPTIONS = [
@@ -26,9 +31,53 @@ ASSUMPTIONS = [
     "host (x86_64) cfg variant analysed; wasm32 variants of from_bytes!/from_hex! are not",
 ]
 
-TRUSTED = ["rustc 1.97.0-nightly MIR/typeck (csl-facts driver)", "rust-src rustdoc `# Panics` sections", "tables/c02_allow.json (hand audit)", "tables/dep_model.json"]
+TRUSTED = ["tables/e2_audited.json", "rustc 1.97.0-nightly MIR/typeck (csl-facts driver)", "rust-src rustdoc `# Panics` sections", "tables/c02_allow.json (hand audit)", "tables/dep_model.json"]
 
 
 def check(rep, F, tier, replay=None):
     e1.run(rep, F, tier)
+    # second clause of the property: whatever a parser returned serialises to well-formed CBOR - declared lengths equal written items
+    import p_c01 as _c01
+    from e2_all import Inventory as _Inv
+    _inv = _Inv(F, thorough=(tier == "thorough"))
+    _inv.analyse_all()
+    _c01.rule_wlen(rep, F, _inv, common.load_table("e2_audited.json"))
+    # BREAK-def: a Break ends only an indefinite-length collection
+    import fieldflow as ff
+    import mustpass as mp
+    rep.rule("BREAK-def", "every collection reader's Break test (is_break_tag) is given the declared length of the collection it is reading - the Len returned by the array() / map() call of the same function - and fails for a definite length: `82 01 ff` is not a one-element list. Byte-preserving values (PlutusData, the kept witness-set fields, FixedTransaction bodies) would otherwise write such a malformed span back verbatim")
+    hb = [f for f in F.fns if f.endswith("serialization::utils::is_break_tag")]
+    if len(hb) != 1:
+        rep.lost("serialization::utils::is_break_tag not found")
+    else:
+        hfn = F.fns[hb[0]]
+        rep.inst("BREAK-def")
+        takes_len = any(l in ("&cbor_event::Len", "&cbor_event::len::Len") or l.endswith("Len") and l.startswith("&") for l in hfn["locals"][1:hfn["argc"] + 1])
+        rejects = False
+        if takes_len:
+            horg = ff.Origins(F, hb[0])
+            for bi, kind, loc in mp.error_stores(F, hb[0]):
+                for s_ in mp.control_deps(F, hb[0], bi):
+                    d = mp.describe_cond(F, hb[0], s_, horg)
+                    if d["kind"] == "discr" and any(x == "arg:2" for x in d.get("of", [])):
+                        rejects = True
+        if not takes_len or not rejects:
+            rep.violation("BREAK-def", "is_break_tag|definite-unaware", "is_break_tag does not know the declared length of the collection (%s): all its callers accept a Break inside a definite-length array / map - PlutusData::from_bytes(82 01 ff) is Ok and to_bytes() writes `82 01 ff` back, which is not well-formed CBOR" % ("no Len parameter" if not takes_len else "no error exit that depends on the Len"), {})
+        else:
+            n_b = 0
+            for fid, fn in F.fns.items():
+                if "/tests/" in fn["file"]:
+                    continue
+                org = None
+                for c in F.calls(fid):
+                    if (c.to or "") != hb[0]:
+                        continue
+                    n_b += 1
+                    rep.inst("BREAK-def")
+                    org = org or ff.Origins(F, fid)
+                    o = org.of_operand(fn["bbs"][c.bb]["t"][3][1])
+                    own = [x for x in o if x.startswith("call:") and re.search(r"Deserializer::<R>::(array|map)(_sz)?@", x)]
+                    if not own:
+                        rep.violation("BREAK-def", "%s|foreign-len" % F.key(fid.split("::{closure")[0]), "%s hands is_break_tag a length that is not the result of its own array() / map() call (origins %s): the Break test judges the wrong container" % (F.key(fid.split("::{closure")[0]), sorted(o)[:4]), {})
+            rep.floor("Break tests in collection readers", 40, n_b)
     return rep.finish(EXPLANATION, ASSUMPTIONS, TRUSTED)
